@@ -40,6 +40,23 @@ of the structure being changed. -/
 theorem table_commits_under_write_lock : ∀ e ∈ lockTable, commitsUnderWriteLock e.2 = true := by
   decide +kernel
 
+/-- All ops but one commit while write-holding `txhashset` — the hypothesis under which the
+commit-protocol model below speaks about chain.rs. -/
+theorem table_commits_under_ts_write_except_state_sync :
+    ∀ e ∈ lockTable, e.1 ≠ "txhashset_write" → commitsUnderTsWrite e.2 = true := by
+  decide +kernel
+
+/-- The exception, stated so that it cannot go unnoticed: `Chain::txhashset_write` (installing a
+downloaded state during fast sync) commits the new head, `output_pos` index and block sums to LMDB
+holding `header_pmmr.write()` only, and takes `txhashset.write()` to swap in the new MMR files
+*afterwards*. In between, an op that takes only `txhashset.read()` (e.g. `get_unspent`) reads the
+old MMR files against the new LMDB index. This window is outside `readers_see_committed` and is
+not exercised by the harness (it needs a state archive); it is named in the evidence. -/
+theorem txhashset_write_commits_outside_ts_lock :
+    (lockTable.lookup "txhashset_write").map commitsUnderTsWrite = some false ∧
+    (lockTable.lookup "txhashset_write").map commitsUnderWriteLock = some true := by
+  decide +kernel
+
 /-- The only callback into foreign code (`self.adapter.block_accepted`) is made with no chain lock
 held (so a callback that re-enters the chain, as the pool adapter does, cannot close a cycle
 through these locks). -/
@@ -171,6 +188,10 @@ preference — why `respectsOrder` rejects read-after-read -/
 example : ∃ s, Reach (strictWP (L := Lock))
       (init [[.acq .ts .R, .acq .ts .R, .rel .ts], [.mark .callback, .acq .ts .W, .rel .ts]]) s
     ∧ Deadlocked strictWP s := deadlock_example_reentrant_read
+
+/-- both extreme policies are admissible -/
+example : PolicyOK (strictWP (L := Lock)) := fun _ _ _ h => h
+example : PolicyOK (fun (_ : State Lock) _ _ => False) := fun _ _ _ h => h.elim
 
 /-- hypotheses of `deadlock_free` are satisfiable by a non-trivial instance -/
 example : ∀ p ∈ [[Ev.acq Lock.hp .W, .acq .ts .W, .acq .batch .W, .rel .batch, .rel .ts, .rel .hp],
